@@ -813,6 +813,8 @@ class Live:
             seams.install_simset()
             seams.SimSet.order_seed = 0
             seams.SimSet.iterations = 0
+            seams.SimSet.permuted = 0
+        seams.SimSet.permuted = 0
         try:
             for index, ev in enumerate(self.plan['events']):
                 rec.begin(index, ev)
@@ -822,6 +824,7 @@ class Live:
         finally:
             if use_simset:
                 rec.probe('simset_orders_consumed', seams.SimSet.iterations)
+                rec.fault('set_order_permutation', seams.SimSet.permuted)
                 seams.uninstall_simset()
 
     def step(self, index, ev):
@@ -837,7 +840,6 @@ class Live:
         if kind == 'set_order':
             if self.cfg.get('simset'):
                 seams.SimSet.order_seed = ev[1]
-                rec.fault('set_order_permutation')
             rec.log('ok')
             return ()
         if kind == 'ctx_new':
@@ -1072,8 +1074,8 @@ class Live:
         elif kind == 'pk_lat':
             lt = self.lattice_of(sl, ev[2], kind)
             out = call(lambda: pickle.loads(pickle.dumps(lt[0], ev[3])))
-            if not out.ok and isinstance(out.exc, RecursionError):
-                rec.log('recursion')   # size limit of lattice pickling: C11's subject
+            if not out.ok and isinstance(out.exc, RecursionError) and len(sl.fca.concepts()) >= 300:
+                rec.log('recursion')   # size limit of lattice pickling (known finding S4): C11's subject
                 return (s,)
             self.need(out.ok, 'lattice_pickles', lambda: f'pickle round trip of a lattice raised {out.text()}')
             sl.add_lat(out.value, 'unpickle')
@@ -1086,7 +1088,7 @@ class Live:
                 data = call(pickle.dumps, lt[0], 4)
             else:
                 data = call(pickle.dumps, sl.ctxs[w % len(sl.ctxs)], 4)
-            if not data.ok and isinstance(data.exc, RecursionError):
+            if not data.ok and isinstance(data.exc, RecursionError) and what == 'lat' and len(sl.fca.concepts()) >= 300:
                 rec.log('recursion')
                 return (s,)
             self.need(data.ok, 'pickles', lambda: f'pickle.dumps raised {data.text()}')
